@@ -424,6 +424,48 @@ class Analysis:
             out.add(a)
         return out
 
+    def config_attrs(self):
+        """public attributes that some __init__ in the MRO sets to a parameter
+        of the same name or to kwargs.get(name) / kwds[name]"""
+        out = set()
+        for k in self.cls.__mro__:
+            init = k.__dict__.get("__init__")
+            if init is None or not inspect.isfunction(unwrap(init)):
+                continue
+            try:
+                node = fn_ast(unwrap(init))
+            except Unsupported:
+                continue
+            params = {a.arg for a in node.args.args + node.args.kwonlyargs}
+            kw = node.args.kwarg.arg if node.args.kwarg else None
+            for st in ast.walk(node):
+                if not (isinstance(st, ast.Assign) and len(st.targets) == 1):
+                    continue
+                t = st.targets[0]
+                if not (isinstance(t, ast.Attribute) and isinstance(
+                        t.value, ast.Name) and t.value.id == "self"
+                        and not t.attr.startswith("_")):
+                    continue
+                v = st.value
+                if isinstance(v, ast.Name) and v.id == t.attr \
+                        and v.id in params:
+                    out.add(t.attr)
+                elif kw and isinstance(v, ast.Call) and isinstance(
+                        v.func, ast.Attribute) and v.func.attr == "get" \
+                        and isinstance(v.func.value, ast.Name) \
+                        and v.func.value.id == kw and v.args \
+                        and isinstance(v.args[0], ast.Constant) \
+                        and v.args[0].value == t.attr:
+                    out.add(t.attr)
+                elif kw and isinstance(v, ast.Subscript) and isinstance(
+                        v.value, ast.Name) and v.value.id == kw \
+                        and isinstance(v.slice, ast.Constant) \
+                        and v.slice.value == t.attr:
+                    out.add(t.attr)
+        _, o = None, None
+        return {a for a in out
+                if not isinstance(resolve(self.cls, a)[1], property)}
+
     def cached_methods(self):
         out = {}
         for name in dir(self.cls):
@@ -471,6 +513,15 @@ class Analysis:
                 if r["stores"] or r["bumps"]:
                     mutators.append((n, r))
         muts = []
+        # configuration the constructor stores under a public name straight
+        # from its arguments (self.metric = metric, self.threshold =
+        # kwargs.get("threshold")) is state the user may assign directly:
+        # one implicit mutator per such attribute that a cached method reads
+        read_by_cached = set()
+        for _, _, reads in methods:
+            read_by_cached |= set(reads)
+        for a in sorted(self.config_attrs() & read_by_cached):
+            muts.append((a + " (assigned)", [a], [], []))
         for n, r in mutators:
             changed = sorted(f for f in self.data_fields(r["stores"])
                              if f not in ("silence_level",))
